@@ -52,13 +52,36 @@ class B:
         return B('or', self, o)
 
     def __eq__(self, o):
-        return isinstance(o, B) and self.k == o.k and len(self.a) == len(o.a) and all(x == y for x, y in zip(self.a, o.a))
+        if self is o: return True
+        if not isinstance(o, B) or self.k != o.k or len(self.a) != len(o.a): return False
+        if self.k in ('and', 'or', 'not'):
+            # formulas are DAGs with shared sub-formulas (a chain of != doubles its operands at every level): compare interned structural keys
+            return skey(self) == skey(o)
+        return all(x == y for x, y in zip(self.a, o.a))
 
     def __ne__(self, o): return not self.__eq__(o)
 
     def __hash__(self): return hash(self.k)
 
     def __str__(self):
+        return self._str([4000])
+
+    def _str(self, budget):
+        # printed form with a size budget: shared sub-formulas would otherwise print exponentially
+        if budget[0] <= 0: return '...'
+        k = self.k
+        if k in ('and', 'or', 'not'):
+            if k == 'not':
+                r = '!(%s)' % self.a[0]._str(budget)
+            else:
+                l = self.a[0]._str(budget); rr = self.a[1]._str(budget)
+                r = '(%s %s %s)' % (l, '&&' if k == 'and' else '||', rr)
+            budget[0] -= 8
+            return r
+        r = self._str_leaf(); budget[0] -= len(r)
+        return r
+
+    def _str_leaf(self):
         k = self.k
         if k == 'const': return str(self.a[0])
         if k in ('gt0', 'ge0', 'eq0', 'ne0'):
@@ -90,11 +113,33 @@ class B:
         memo[key] = r
         return r
 
-    def atoms(self):
+    def atoms(self, memo=None):
+        if memo is None: memo = {}
+        if id(self) in memo: return memo[id(self)]
         s = set()
         for x in self.a:
-            if isinstance(x, (Rat, B)): s |= x.atoms()
+            if isinstance(x, B): s |= x.atoms(memo)
+            elif isinstance(x, Rat): s |= x.atoms()
+        memo[id(self)] = s
         return s
+
+
+_SK = {}
+
+
+def skey(b, memo=None):
+    """interned structural key of a boolean formula: linear in the size of the DAG"""
+    if memo is None: memo = {}
+    if isinstance(b, B):
+        i = id(b)
+        if i in memo: return memo[i]
+        key = (b.k,) + tuple(skey(x, memo) for x in b.a)
+        r = ('b', _SK.setdefault(key, len(_SK)))
+        memo[i] = r
+        return r
+    if isinstance(b, Rat):
+        return ('rat', frozenset(b.num.t.items()), frozenset(b.den.t.items()))
+    return b
 
 
 def lt(a, b): return B.cmp('gt0', b - a)
